@@ -9,8 +9,8 @@ declared type, and literal indices into fixed-length arrays are in bounds (`Refs
 -/
 namespace Hpl
 
-theorem nextField_ok_iff (t t' : TyTok) (n : String) : nextField t n = .ok t' ↔ fieldOf t n = some t' := by
-  unfold nextField fieldOf
+theorem nextField_ok_iff (t t' : TyTok) (n : String) : nextField t n = .ok t' ↔ tokFieldOf t n = some t' := by
+  unfold nextField tokFieldOf
   cases t with
   | msg _ fs cs =>
     simp only
@@ -29,8 +29,8 @@ def StepInBounds (t : TyTok) (i : Expr) : Prop :=
   | .arr _ _ len, .lit _ _ v => containsIndex len v = .ok true
   | _, _ => True
 
-theorem nextIndex_ok_iff (t t' : TyTok) (i : Expr) : nextIndex t i = .ok t' ↔ elemOf t = some t' ∧ StepInBounds t i := by
-  unfold nextIndex elemOf StepInBounds
+theorem nextIndex_ok_iff (t t' : TyTok) (i : Expr) : nextIndex t i = .ok t' ↔ tokElemOf t = some t' ∧ StepInBounds t i := by
+  unfold nextIndex tokElemOf StepInBounds
   cases t with
   | arr n sub len =>
     cases i with
@@ -443,15 +443,15 @@ end
 
 /-! ## navigation helpers agree with the declared field tree -/
 
-theorem containsName_iff (t : TyTok) (n : String) : containsName t n = (fieldOf t n).isSome := by
+theorem containsName_iff (t : TyTok) (n : String) : containsName t n = (tokFieldOf t n).isSome := by
   cases t with
-  | msg _ fs cs => simp only [containsName, fieldOf]; cases fs.find n <;> simp
+  | msg _ fs cs => simp only [containsName, tokFieldOf]; cases fs.find n <;> simp
   | prim _ _ => rfl
   | arr _ _ _ => rfl
 
 theorem getTypeOf_ok_iff (name : String) (fs cs : FieldList) (n : String) (t' : TyTok) :
-    getTypeOf (.msg name fs cs) n = .ok t' ↔ fieldOf (.msg name fs cs) n = some t' := by
-  simp only [getTypeOf, fieldOf]
+    getTypeOf (.msg name fs cs) n = .ok t' ↔ tokFieldOf (.msg name fs cs) n = some t' := by
+  simp only [getTypeOf, tokFieldOf]
   cases h1 : fs.find n with
   | some a => simp
   | none => cases h2 : cs.find n <;> simp
